@@ -191,6 +191,97 @@ var Ops = []Op{
 		_, e3 := security.NASMacCalculate(1, key(s), 1, 0, 0, nil)
 		return fmt.Sprintf("%v %v %v ", e1 != nil, e2 != nil, e3 != nil) + mac(1, s, 12) + enc(3, s, 9)
 	}},
+	{"time-conversions", func(s int) string {
+		// a time stamp whose zone depends on the caller: quarter-hour grid, both signs
+		var e nasType.UniversalTimeAndLocalTimeZone
+		e.SetYear(0x42)
+		e.SetMonth(0x01)
+		e.SetDay(0x51)
+		e.SetHour(0x01)
+		e.SetMinute(0x03 | uint8(s%6)<<4)
+		e.SetSecond(0x95)
+		q := uint8(s % 56)
+		tz := (q%10)<<4 | q/10
+		if s%2 == 1 {
+			tz |= 0x08
+		}
+		e.SetTimeZone(tz)
+		t := nasConvert.DecodeUniversalTimeAndLocalTimeZone(e)
+		_, off := t.Zone()
+		back := nasConvert.EncodeUniversalTimeAndLocalTimeZoneToNas(t)
+		txt := fmt.Sprintf("%+03d:%02d", (s%25)-12, 15*(s%4))
+		if txt[0] != '-' && txt[0] != '+' {
+			txt = "+" + txt
+		}
+		l := nasConvert.EncodeLocalTimeZoneToNas(txt)
+		d := nasConvert.EncodeDaylightSavingTimeToNas(txt + "+" + fmt.Sprint(s%3))
+		return fmt.Sprintf("%s %d %x %x %s %x %s %s", t.UTC().Format("2006-01-02T15:04:05"), off, back.Octet, l.Octet, nasConvert.DecodeLocalTimeZone(l), d.Octet, nasConvert.DecodeDaylightSavingTime(d), nasConvert.GetTimeZone(t))
+	}},
+	{"identity-strings", func(s int) string {
+		pei, e1 := nasConvert.PeiToStringWithError([]byte{0x3b, 0x65, 0x39, 0x08, 0x53, 0x46, 0x83, byte(s%10)<<4 | 9, 0xf1})
+		guami, guti, e2 := nasConvert.GutiToStringWithError([]byte{0xf2, 0x02, 0xf8, 0x39, 0xca, 0xfe, byte(s), 0, 0, 0, byte(s)})
+		nai := nasConvert.NaiToString([]byte{0x09, 'u', byte('a' + s%26), '@', 'x'})
+		_, plmn, e3 := nasConvert.SuciToStringWithError([]byte{0x01, 0x02, 0xf8, 0x39, 0xf0, 0xff, 0x00, 0x00, byte(s), 0x32})
+		return fmt.Sprintf("%s %v %v %s %v %s %s %v %d %s %s", pei, e1, guami.PlmnId, guti, e2, nai, plmn, e3, nasConvert.GetTypeOfIdentity(byte(s)),
+			nasConvert.PeiToString([]byte{0x3b, 0x65, 0x39, 0x08, 0x53, 0x46, 0x83, 0x09}), gutiOnly([]byte{0xf2, 0x02, 0xf8, 0x39, 0xca, 0xfe, byte(s), 0, 0, 0, 1}))
+	}},
+	{"plmn-and-amf-id", func(s int) string {
+		mnc := fmt.Sprintf("%02d", s%100)
+		if s%2 == 0 {
+			mnc = fmt.Sprintf("%03d", s%1000)
+		}
+		p := nasConvert.PlmnIDToNas(models.PlmnId{Mcc: fmt.Sprintf("%03d", 200+s), Mnc: mnc})
+		r, set, ptr, err := nasConvert.AmfIdToNasWithError(fmt.Sprintf("ca%02x%02x", s&0xff, (s*7)&0xff))
+		r2, _, _ := nasConvert.AmfIdToNas("zz0000")
+		return fmt.Sprintf("%x %s %x %d %d %v %s %x", p, nasConvert.PlmnIDToString(p), r, set, ptr, err, nasConvert.AmfIdToModels(r, set, ptr), r2)
+	}},
+	{"nssai-and-area-encoders", func(s int) string {
+		sd := fmt.Sprintf("%06x", s*65793)
+		a := nasConvert.SnssaiToNas(models.Snssai{Sst: int32(s % 256), Sd: sd})
+		b := nasConvert.SnssaiToNas(models.Snssai{Sst: int32(s % 256)})
+		rj := nasConvert.RejectedNssaiToNas([]models.Snssai{{Sst: int32(s % 256), Sd: sd}}, []models.Snssai{{Sst: int32(s % 256)}})
+		r1 := nasConvert.RejectedSnssaiToNas(models.Snssai{Sst: 1, Sd: sd}, uint8(s%2))
+		e := nasType.NewSNSSAI(0x22)
+		e.SetLen(4)
+		copy(e.Octet[:], []byte{byte(s), 1, 2, byte(s)})
+		m := nasConvert.SnssaiToModels(e)
+		plmn := &models.PlmnId{Mcc: "208", Mnc: "93"}
+		tais := []models.Tai{{PlmnId: plmn, Tac: fmt.Sprintf("%06x", s)}, {PlmnId: plmn, Tac: fmt.Sprintf("%06x", s+1)}}
+		tl := nasConvert.TaiListToNas(tais)
+		ld := nasConvert.LadnToNas(fmt.Sprintf("dnn%d", s), tais)
+		sa := nasConvert.PartialServiceAreaListToNas(*plmn, models.ServiceAreaRestriction{RestrictionType: models.RestrictionType_ALLOWED_AREAS, Areas: []models.Area{{Tacs: []string{fmt.Sprintf("%06x", s)}}}})
+		back := nasConvert.LadnToModels([]byte{4, 3, 'a', 'b', byte('a' + s%26), 1, 0})
+		return fmt.Sprintf("%x %x %x %x %+v %x %x %x %q", a, b, rj.Buffer, r1, m, tl, ld, sa, back)
+	}},
+	{"status-bitmaps-and-capabilities", func(s int) string {
+		var arr [16]bool
+		for i := range arr {
+			arr[i] = (s>>uint(i%8))&1 == 1
+		}
+		buf := nasConvert.PSIToBuf(arr)
+		back := nasConvert.PSIToBooleanArray(buf)
+		rc := nasConvert.PDUSessionReactivationResultErrorCauseToBuf([]uint8{uint8(s % 16), 5}, []uint8{uint8(s), 0x1a})
+		nea, nia, eea, eia := nasConvert.UESecurityCapabilityToByteArray([]byte{byte(s), 0xf0, 0x0f, byte(s)})
+		ack, err := nasConvert.UpuAckToModels(append([]byte{1}, msg(s, 16)...))
+		_, err2 := nasConvert.UpuAckToModels([]byte{byte(s)})
+		upu := nasConvert.UpuInfoToNas(models.UpuInfo{UpuMacIausf: fmt.Sprintf("%032x", s), CounterUpu: "0001", UpuRegInd: s%2 == 0, UpuAckInd: true})
+		k := nasConvert.SpareHalfOctetAndNgksiToNas(models.NgKsi{Tsc: models.ScType_NATIVE, Ksi: int32(s % 7)})
+		km := nasConvert.SpareHalfOctetAndNgksiToModels(k)
+		pt := nasConvert.ModelsToPDUSessionType(nasConvert.PDUSessionTypeToModels(uint8(s%5 + 1)))
+		sn := nasConvert.ShortNetworkNameToNas(fmt.Sprintf("n%d", s))
+		return fmt.Sprintf("%x %v %x %x %x %x %x %s %v %v %x %x %+v %d %x", buf, back, rc, nea, nia, eea, eia, ack, err, err2, upu, k.Octet, km, pt, sn.Buffer)
+	}},
+	{"pco-more", func(s int) string {
+		p := nasConvert.NewProtocolConfigurationOptions()
+		p.AddDNSServerIPv6AddressRequest()
+		p.AddIPAddressAllocationViaNASSignallingUL()
+		u := nasConvert.NewProtocolOrContainerUnit()
+		u.ProtocolOrContainerID = uint16(0xff00 + s%256)
+		u.LengthOfContents = 2
+		u.Contents = []byte{byte(s), 1}
+		p.ProtocolOrContainerList = append(p.ProtocolOrContainerList, u)
+		return fmt.Sprintf("%x", p.Marshal())
+	}},
 	{"ue-policy", func(s int) string {
 		var part uePolicyContainer.UEPolicyPart
 		part.UEPolicyPartType.SetPartType(1)
@@ -219,6 +310,11 @@ var Ops = []Op{
 		cnt.AddOne()
 		return fmt.Sprintf("%d %d %d %x", a, b, c, cnt.Get())
 	}},
+}
+
+func gutiOnly(b []byte) string {
+	_, g := nasConvert.GutiToString(b)
+	return g
 }
 
 func enc(alg uint8, s, n int) string {
